@@ -114,6 +114,8 @@ def make_builder(opts):
 def mission_of(fl):
     from AEIC.missions import Mission
     from AEIC.missions.mission import iso_to_timestamp
+    if fl.get('dest_def'):
+        c02.ensure_airport(fl['d'], *fl['dest_def'])
     return Mission(origin=fl['o'], destination=fl['d'], departure=iso_to_timestamp(fl.get('dep', '2024-09-01T12:00:00')),
                    arrival=iso_to_timestamp('2024-09-01T18:00:00'), aircraft_type='738', load_factor=fl['lf'])
 
@@ -221,7 +223,15 @@ def gen_flight(rng, opts):
         if r < 0.85:
             return {'kind': 'missing-weather-dir', 'o': 'BOS', 'd': 'JFK', 'lf': 1.0, 'hide_wx': True}
         return {'kind': 'unknown-airport', 'o': 'BOS', 'd': 'QQQ', 'lf': 1.0}
-    if r < 0.48:
+    if rng.random() < 0.09:
+        # a short hop: the cruise segment is only a few km to ~150 km long (the shortest route flown with the shipped
+        # table from a sea-level airport is about 240 km)
+        dist = rng.choice([241.0, 243.0, 246.0, 252.0, 262.0, 280.0, 310.0, 350.0, 390.0])
+        lat, lon = c02.place('BOS', dist, 250.0)
+        defn = [round(lat, 7), round(lon, 7), 20]
+        return {'kind': 'short-cruise', 'o': 'BOS', 'd': c02.dyn_code(defn), 'dest_def': defn, 'lf': 1.0,
+                'table': rng.choice([None, None, TABLES[3]]), 'route_km': dist}
+    if r < 0.46:
         o, d = rng.choice(VALID)
         fl = {'kind': 'valid', 'o': o, 'd': d, 'lf': rng.choice([1.0, 0.9, 0.75])}
         fl['table'] = rng.choice(TABLES)
